@@ -14,6 +14,18 @@ CLAIMED = {
          "Programs (half in balanced form) are run with boundary-valued integer arguments and under-funded UTxOs; whenever the pipeline returns Ok every numeric field must fit its ledger type and equal the exact value, and balanced templates must conserve value per asset class on the decoded bytes; a panic is reported as panic-instead-of-error. Held = no silent wrap/truncate/drop outside the listed known findings.",
          "release profile so that wraps are silent (checked profile in a second phase); Err results are always acceptable; ranges per DESIGN appendix B",
          "DESIGN.md section 3 C02"),
+ "C08": ("exploration", "runtime monitor: redeemer-attachment oracle (ledger-order ranks computed by the reference semantics) vs the independently decoded witness set",
+         "Generated templates with script inputs (single and multi-UTxO), mints/burns on shared and distinct policies and withdrawals, with random transaction ids / policy ids / credentials so that every relative order occurs; the decoded map (purpose tag, index) -> data must equal the map built from the source. Lost, spurious, misindexed and wrong-data redeemers have distinct signatures. Held = maps equal on every generated case.",
+         "ledger ordering of inputs (txid bytes, index), mint policies and reward accounts as implemented in the reference semantics; ambiguous mint blocks (several policies / cancelled policy with a redeemer) are counted, not judged",
+         "DESIGN.md section 3 C08"),
+ "C09": ("exploration", "runtime monitor: independent Plutus-Data reader (written from the CDDL) vs reference denotation; exhaustive constructor-index sweep 0..139",
+         "Every constructor index 0..139 (tags 121-127, 1280-1400, 102) is exercised as inline datum and as redeemer, with integer fields over the i128 boundary set; generated programs add nested records/variants/lists/maps, spread, field access, integers over the whole i128 range and byte strings of 0..100 bytes. Held = the spec reader recovers exactly the denoted value from the emitted bytes in every case.",
+         "the harness' Plutus-Data reader is self-tested on hand-written vectors for tags 121/127/1280/1400/102 and bignums; an 'arithmetic overflow' error for values beyond i128 is the accepted outcome",
+         "DESIGN.md section 3 C09"),
+ "C10": ("exploration", "runtime monitor: pallas decode acceptance + own Blake2b-256 over raw byte ranges (body, auxiliary data, script integrity) + structural scan of the independent CBOR view + compile-twice and cross-process byte equality",
+         "Constant templates from generated programs are compiled and the bytes inspected: standard decoder accepts; reported hash = digest of raw body bytes; aux-data and script-data hashes present exactly when metadata / redeemers are and equal to digests of what the payload carries; no duplicate/empty/zero entries; network id; identical bytes for same instance, fresh instance and three fresh processes. Held = all oracles satisfied on every compiled template.",
+         "script integrity computed per the Alonzo rule with the cost models handed to the compiler; ledger validity beyond these structural rules (min-UTxO, script execution) is not modelled",
+         "DESIGN.md section 3 C10"),
  "C11": ("exploration", "runtime monitor: canonical-form round-trip oracle over random IR trees and lowered programs; hostile-bytes totality monitor with panic hook, signal and watchdog observers",
          "Random IR trees covering every Expression/Param/BuiltInOp/CompilerOp/Coerce variant, all lowered example and generated programs are encoded and decoded and compared in canonical form (plus find_params/find_queries and the compiled transaction after identical application); 12 kinds of hostile byte strings and a list of version strings must yield Ok/Err without panic, abort or hang. Held = no difference and no crash on anything generated.",
          "equality is equality of the canonicalised Serialize output; a field hidden from Serialize would be invisible; hang = wall-clock watchdog reproduced alone with 3x budget",
